@@ -1,14 +1,16 @@
 package simrt
 
 import (
-	"net/http"
-	"io"
 	"bufio"
-	"errors"
-	"strconv"
 	"bytes"
 	"encoding/json"
+	"errors"
 	"fmt"
+	"io"
+	"math"
+	"math/big"
+	"net/http"
+	"strconv"
 	"strings"
 	"time"
 
@@ -789,6 +791,19 @@ func annotatedBodyDefect(w *WorldDesc, msgFQ string, body []byte) string {
 		case f.Int64Encoding == "NUMBER":
 			if kind == "object" || kind == "array" || kind == "bool" || (kind == "string" && !isInt(str)) {
 				return bad("int64_encoding=NUMBER")
+			}
+			if kind == "number" {
+				// a 64-bit integer field: the number must be an integer (any spelling: 1e3 and
+				// 1.0 are integers) inside the range of the field's type
+				if r, ok := new(big.Rat).SetString(string(t)); ok {
+					lo, hi := big.NewInt(math.MinInt64), big.NewInt(math.MaxInt64)
+					if f.Kind == "uint64" || f.Kind == "fixed64" {
+						lo, hi = big.NewInt(0), new(big.Int).SetUint64(math.MaxUint64)
+					}
+					if !r.IsInt() || r.Num().Cmp(lo) < 0 || r.Num().Cmp(hi) > 0 {
+						return bad("int64_encoding=NUMBER not an integer in range")
+					}
+				}
 			}
 		case f.TimestampFormat == "UNIX_SECONDS" || f.TimestampFormat == "UNIX_MILLIS":
 			// (a standard RFC 3339 string is the un-annotated proto3 JSON form: accepting it is lenient, not undecodable)
